@@ -3,7 +3,6 @@
 package core
 
 import (
-	"runtime/pprof"
 	"crypto/sha1"
 	"encoding/hex"
 	"encoding/json"
@@ -12,6 +11,7 @@ import (
 	"path/filepath"
 	"runtime"
 	"runtime/debug"
+	"runtime/pprof"
 	"sort"
 	"strconv"
 	"strings"
